@@ -217,6 +217,15 @@ def real_cases(rng, quick):
     add(150, 700, 4, tag="tall")
     add(200, 180, 3, tag="one-tile", big=True)
     add(256, 90, 2, tag="one-tile")
+    # an input that covers a whole aligned tile which an earlier input also populates, with an undefined band / hole of
+    # the covering input inside that tile (a tile may never be replaced wholesale): a 1024-wide mosaic sits at gx0 = 0
+    for hh in ([600] if quick else [600, 1024, 300]):
+        ox = rng.randint(300, 420)
+        band = 512 - ox + rng.randint(20, 120)                   # reaches into tile column 2, which the input covers
+        pw = rng.randint(ox + band + 30, 760)
+        cover = sub(ox, 0, 1024 - ox, hh, bl=band, bt=rng.randint(0, 9), hole=(band + 40, band + 90, hh // 2 - 30, hh // 2 + 40))
+        add(1024, hh, 2, tag="full-tile", agree=(hh != 1024))
+        cases[-1]["subs"] = [sub(0, 0, pw, hh, br=rng.randint(0, 12)), cover]
     # grids rotated by exactly 0, +-90, 180 and 45 degrees (matrix elements that are exactly 0 or equal), written as a CD
     # matrix and as PC + CDELT; one tile and several tiles
     for i, rot in enumerate(["0", "90", "-90", "180", "45"]):
@@ -404,6 +413,13 @@ def read_tiles(out, fmt, lev):
             else:
                 tiles[(tx, ty)] = np.load(p)
     return tiles, sorted(odd), sorted(locks)
+
+
+def field_diff(name, a, b):
+    """Rotations are angles: 180 and -180 degrees (atan2 of +0.0 / -0.0) are the same description."""
+    if name == "rotation_deg":
+        return abs((a - b + 180.0) % 360.0 - 180.0)
+    return abs(a - b)
 
 
 def fields_of(imgset):
@@ -724,14 +740,14 @@ def replay_group(args):
                         " (one was left by an interrupted earlier run)" if stale else ""), rrep))
         # (3) the astrometric description
         for f in FIELDS:
-            if f in spec_fields and abs(fields[f] - spec_fields[f]) > TOL:
+            if f in spec_fields and field_diff(f, fields[f], spec_fields[f]) > TOL:
                 res.append(("V", "C09:multi_tan:fields", "%s = %r, the specification gives %r (levels %d, scale %d px, offsets %d/2, %d/2 px)"
                             % (f, fields[f], spec_fields[f], fl["levels"], fl["scalepix"], fl["offx2"], fl["offy2"]), rrep))
                 break
         if fmt in single:
             sf = single[fmt][0]
             for f in FIELDS:
-                if abs(fields[f] - sf[f]) > TOL:
+                if field_diff(f, fields[f], sf[f]) > TOL:
                     res.append(("V", "C09:multi_tan:fields", "%s = %r for the collection, %r for the pasted mosaic tiled as one image" % (f, fields[f], sf[f]), rrep))
                     break
         h = hashlib.sha1()
@@ -921,13 +937,13 @@ def run(ctx):
             runs.append(dict(fmt="npy" if var["fmt"] == "fits" else "fits", mode="serial", stale=True))
         n = len(case["subs"])
         shared = len({(x[0], y[0]) for ins in exp["ins"] for x in ins["xs"] for y in ins["ys"]}) < sum(len(ins["xs"]) * len(ins["ys"]) for ins in exp["ins"])
-        if first and shared and (case["tag"] in ("one-tile", "critical", "wide", "tall") or not quick):
+        if first and shared and (case["tag"] in ("one-tile", "critical", "wide", "tall", "full-tile") or not quick):
             k = 4 if case["tag"] == "one-tile" else (2 if quick else 6)
             for j in range(k):
                 runs.append(dict(fmt="fits" if j % 3 else "npy", mode="sim", parallel=2 + (j % 2 if n > 2 else 0), policy=pols[(nsim + j) % len(pols)],
                                  seed=rng.randrange(1 << 30)))
             nsim += k
-        if first and shared and (nprocs < (3 if quick else 12)) and case["tag"] in ("one-tile", "wide", "critical", "big"):
+        if first and shared and (nprocs < (3 if quick else 12)) and case["tag"] in ("one-tile", "wide", "critical", "big", "full-tile"):
             runs.append(dict(fmt="fits", mode="procs", parallel=2 + nprocs % 2))
             nprocs += 1
         if first and case["tag"] == "tall":
